@@ -63,12 +63,12 @@ out.append("\nRepaired by a `fix:` commit in /repo (entries suppress nothing; th
 out.append(b)
 mp = os.path.join(ROOT, "seeded", "MATRIX.md")
 out.append("### 0.3 Seeded changes and which checks catch them\n")
-out.append("Fresh sub-agents that were given only a property's text and a scratch worktree wrote realistic property-breaking changes (two rounds, the second told which ideas were taken); each kept change was confirmed by the lead in a scratch worktree (demo passes on the clean tree and fails with the change, build ok, existing tests of the changed packages and their importers pass) and lives under `seeded/<id>/` (patch.diff, demo, NOTES.md, meta.json with the first-trial result, result.json with the last run). `lib/seed_matrix.py` re-runs all of them.\n")
+out.append("Fresh sub-agents that were given only a property's text and a scratch worktree wrote realistic property-breaking changes (four rounds; from the second on each sub-agent was told which ideas were already taken and asked for different functions, mechanisms and clauses); each kept change was confirmed by the lead in a scratch worktree (demo passes on the clean tree and fails with the change, build ok, existing tests of the changed packages and their importers pass) and lives under `seeded/<id>/` (patch.diff, demo, NOTES.md, meta.json with the first-trial result, result.json with the last run). `lib/seed_matrix.py` re-runs all of them.\n")
 if os.path.exists(mp):
     out.append(open(mp).read().split("\n\n", 2)[-1])
 hp = os.path.join(ROOT, "seeded", "_harmless", "RESULT.txt")
 out.append("\n### 0.4 False-alarm tests\n")
-out.append("* Seeds: `lib/seed_sweep.sh` runs every quick check under several `VERIF_SEED`s on the unchanged tree (seeds 1–5, 7, 11 and, per property, up to 14 seeds by its owner); two checks whose verdict depended on the seed (C12: an account number drawn by x/bank for a fresh ERC-20 recipient was read as the known finding's trace; C08: downstream effects of the known trace defect on other senders were classified as new) were repaired. The thorough tier of all twenty checks passes on the unchanged tree.")
+out.append("* Seeds: `lib/seed_sweep.sh` runs every quick check under several `VERIF_SEED`s on the unchanged tree (seeds 1–5, 7, 11 and, per property, up to 14 seeds by its owner); checks whose verdict depended on the seed or on machine load were repaired (C20: wall-clock deadlines and goroutine-quiescence heuristics in the filter-API histories gave alarms when four checks ran at once: every 'did not happen' verdict now needs a 150 s wait plus scheduling-independent evidence, otherwise the case is skipped and counted; C11: the thorough tier met a removed duplicate validator sharing the proposer's consensus key; C12: an account number drawn by x/bank for a fresh ERC-20 recipient was read as the known finding's trace; C08: downstream effects of the known trace defect on other senders were classified as new). The thorough tier of all twenty checks passes on the unchanged tree.")
 if os.path.exists(hp):
     lines = [l for l in open(hp).read().strip().split("\n") if l]
     ok = sum(1 for l in lines if " exit 0 0v" in l)
